@@ -248,6 +248,7 @@ ALLOWED = {'TVoid': {'VOID'}, 'TBool': {'FALSE'}, 'TPtr': {'NULL', 'NULLSTR'}, '
 
 class C16(vlib.PropertyCheck):
     id = 'C16'
+    env_passes = False     # the runtime debug level is part of this property's cases
     family = 'c16'
     harness = 'c16.c'
     case_timeout = 300
